@@ -10,6 +10,18 @@ pool = build.pool
 STACK_IDS = [s.id for s in pool.STACKS]
 
 # runs per build: (quick, thorough)
+# bigsweep: runs per build on large fields (2^14 .. 2^23 cells), (build, quick, thorough)
+BIG = {
+    'C05': [('rel-plain', 96, 1500), ('dbg-asan', 16, 300)],
+    'C06': [('rel-plain', 64, 1200), ('dbg-asan', 12, 240)],
+    'C07': [('rel-plain', 64, 1200), ('dbg-asan', 12, 240)],
+    'C12': [('rel-plain', 48, 800), ('dbg-asan', 12, 200)],
+    'C15': [('rel-plain', 32, 400), ('dbg-asan', 8, 100), ('rel-asan', 8, 100), ('dbg-plain', 8, 100)],
+}
+# hugesweep: constructions of 2^31 .. 2^40 cells against the 256 MiB simulated machine, per build (quick, thorough)
+HUGE = {'C12': (600, 6000), 'C15': (300, 3000)}
+BIG_WORKERS = 8  # a large-field run holds a few hundred MB
+
 HIST = {
     'C12': dict(profile='ownership', groups=['core', 'io', 'conv'], compile_groups=('core',), sweep='ownsweep,allocsweep',
                 builds=[('rel-plain', 160000, 3000000), ('dbg-asan', 30000, 500000), ('rel-asan', 30000, 500000)]),
@@ -140,6 +152,61 @@ def check(prop, tier, seed):
                         key = r['key']
                     r = dict(r, sweep=sweep)
                     viol_first.setdefault(key, (b, r))
+    # large fields: a few operations each on lattices of 2^14 .. 2^23 cells
+    big_info = None
+    obs_big = {}
+    for b, nq, nt in BIG.get(prop, []):
+        if b not in exes:
+            continue
+        n = nt if thorough else nq
+        sargs = ['--property', prop, '--profile', 'bigsweep', '--seed', str(seed), '--tier', tier, '--disable', disabled]
+        t0 = time.time()
+        results, stats = run.run_batch(exes[b], sargs, n, BIG_WORKERS, stall_timeout=300)
+        dt = time.time() - t0
+        per_build[b + ' bigsweep'] = dict(runs=len(results), wall_s=round(dt, 2))
+        total_runs += len(results)
+        big_info = big_info or dict(runs=0, bounds='lattices of 2^14 .. 2^23 cells (at most 6.8 million stored scalars per field), extents odd / next to a '
+                                    'power of two / a power of two / arbitrary; 5-9 operations per run; every conversion pair (C05), serialisable stack '
+                                    '(C06, C12, C15) or reader/writer pair (C07) in turn')
+        big_info['runs'] += len(results)
+        for k, v in stats.items():
+            all_stats[k] = all_stats.get(k, 0) + v
+        for r in results:
+            if r['ok']:
+                if r['nontrivial']:
+                    cases.add(r['case'])
+                obs_big.setdefault(r['run'], {})[b] = r['obs']
+            else:
+                if r.get('death'):
+                    if checks.is_benign_death(r):
+                        continue
+                    key = checks.death_key(r, STACK_IDS)
+                else:
+                    key = r['key']
+                r = dict(r, sweep='bigsweep')
+                viol_first.setdefault(key, (b, r))
+    if prop in HUGE:
+        nq, nt = HUGE[prop]
+        sargs = ['--property', prop, '--profile', 'hugesweep', '--seed', str(seed), '--tier', tier, '--disable', disabled]
+        for b, _, _ in cfg['builds']:
+            t0 = time.time()
+            results, stats = run.run_batch(exes[b], sargs, nt if thorough else nq, workers_for(b))
+            per_build[b + ' hugesweep'] = dict(runs=len(results), wall_s=round(time.time() - t0, 2))
+            total_runs += len(results)
+            for k, v in stats.items():
+                all_stats[k] = all_stats.get(k, 0) + v
+            for r in results:
+                if not r['ok']:
+                    if r.get('death'):
+                        if checks.is_benign_death(r):
+                            continue
+                        key = checks.death_key(r, STACK_IDS)
+                    else:
+                        key = r['key']
+                    viol_first.setdefault(key, (b, dict(r, sweep='hugesweep')))
+        big_info = big_info or {}
+        big_info['beyond_machine_size'] = ('%d constructions per build of lattices of 2^31 .. 2^40 cells on a simulated machine that refuses requests above '
+                                           '256 MiB: the constructor must throw bad_alloc or own storage for every cell it describes' % (nt if thorough else nq))
     # memcheck pass (C15): the same program space under valgrind, uninitialised-value use is
     # something ASan cannot see
     vg_runs = 0
@@ -174,6 +241,13 @@ def check(prop, tier, seed):
                 if key not in viol_first:
                     viol_first[key] = (cfg['builds'][0][0], dict(run=i, seed=0, ok=False, death=False, key=key, op=-1,
                                                                   detail='observation logs differ between builds: %s' % d))
+        for i, d in sorted(obs_big.items()):
+            if len(d) >= 2 and len(set(d.values())) > 1:
+                diverged += 1
+                key = 'build-diverge:-:bigrun'
+                if key not in viol_first:
+                    viol_first[key] = (cfg['builds'][0][0], dict(run=i, seed=0, ok=False, death=False, key=key, op=-1, sweep='bigsweep',
+                                                                  detail='observation logs of a large-field run differ between builds: %s' % d))
     # reproduce, minimise, write replay files
     for key, (b, r) in checks.cap_keys(rep, viol_first):
         handle_violation(rep, prop, cfg, exes, disabled, seed, tier, key, b, r)
@@ -222,6 +296,8 @@ def check(prop, tier, seed):
         rep.coverage['golden_files'] = golden
     if sweep_info is not None:
         rep.coverage['systematic_sweep'] = sweep_info
+    if big_info is not None:
+        rep.coverage['large_field_runs'] = big_info
     zero = [k for k in ('self_copy_assign_nonempty', 'assign_into_moved_from') if prop == 'C12' and not probes.get(k)]
     if zero:
         rep.coverage['warnings'] = ['reach probe stayed at zero: ' + ', '.join(zero)]
